@@ -62,7 +62,8 @@ def run(ctx):
         raise core.MachineryError("vacuous model: kinds=%s acts=%s" % (kinds, acts))
     ctx.traces = len(res.cases)
     ctx.extra.update({"histories_by_kind": kinds, "steps_by_action": acts})
-    from .. import tracedrv
+    from .. import tracedrv, repotrace
+    repotrace.repo_trace_check(ctx)
     tracedrv.trace_check(ctx, 150 if ctx.tier == "quick" else 1200, 6 if ctx.tier == "quick" else 8)
     ctx.rule = "every reachable state of MC_C05 (initial shape + history of refinement calls) is one case; distinct = distinct (shape, history)"
     ctx.assumptions = ["1e-9 relative tolerance", "clamped, normalised knot vectors"]
